@@ -298,6 +298,11 @@ type knownEntry struct {
 	Repro    string `json:"repro"`
 	Commit   string `json:"commit,omitempty"`
 	What     string `json:"what"`
+	// Scope "repro": the entry is matched only against its own reproducer file in the replay tier (the
+	// generator avoids the failing feature by construction through a named, counted switch), so a
+	// generated failure that happens to carry the same key is still reported. Default ("generated"):
+	// generated failures with this key are counted as excluded.
+	Scope string `json:"scope,omitempty"`
 }
 
 var knownKeys = map[string]bool{}
@@ -313,7 +318,7 @@ func loadKnown() {
 		os.Exit(2)
 	}
 	for _, k := range ks {
-		if k.Status == "known" && (E.Property == "" || k.Property == E.Property) {
+		if k.Status == "known" && k.Scope != "repro" && (E.Property == "" || k.Property == E.Property) {
 			knownKeys[k.Key] = true
 		}
 	}
